@@ -44,6 +44,10 @@ checks = {
   "Creates resizable chunked datasets (rank 1-3, dividing and non-dividing chunks, fixed/unlimited maxima, plain or filtered, superblock 0/2/3), applies 1-10 grow/shrink/rewrite/beyond-maximum steps in four patterns while an N-d array model is resized with the same calls; acceptance of every step is compared with the declared maximum and, after Close and reopen, shape and every element with the model (retained, zero-filled, nothing resurrected).",
   "Written values are never zero so a zero always means unwritten; extents <= 40 per axis.",
   TECH + ": executable array model stepped with call outcomes, checked after reopen"),
+ "C10": ("exploration",
+  "Takes base files written by the library (random histories, superblock 0/2/3, compact and dense attributes, chunked data, hard links) and copied files of the reference corpus, runs 1-6 OpenForWrite/modify/Close sessions (OpenDataset incl. two handles on one object, attribute upsert/delete, data overwrite, CreateDataset/CreateGroup) and compares the reader's dump after each session with the dump before it patched with the session's successful operations; refused operations must leave no trace; sessions without modification must leave the file byte-identical (sha256).",
+  "A refused operation is an accepted answer (support is documented as partial); reference files above 1 MiB and datasets above 2^20 elements are not read.",
+  TECH + ": differential oracle (previous dump + model patch) and byte-identity monitor over real reopen sessions"),
  "C11": ("exploration",
   "For 15 encoder/decoder pairs, generates well-formed values with boundary cases, encodes twice (determinism), decodes and compares every field, re-encodes where possible.",
   "Array/enum properties are read back by a direct reading of the documented layout (no library decoder exists); documented normalisations applied.",
